@@ -83,6 +83,9 @@ struct Prog {
     }
 };
 
+bool g_unwinding = false;
+struct UnwindResolve { Prog *P; int k; ~UnwindResolve() { (void)P->gate_p[k](P->gval[k]); } };
+
 async<void> script(Prog *P, int id) {
     P->on_resume(id);
     for (int pc = 0; pc < P->len[id]; ++pc) {
@@ -165,7 +168,10 @@ async<void> script(Prog *P, int id) {
 }
 } // namespace
 
-extern "C" void h_prog() {
+void prog(); 
+extern "C" void h_prog() { g_unwinding = false; prog(); }
+extern "C" void h_prog_unwind() { g_unwinding = true; prog(); }
+void prog() {
     vf_warmup();
     Prog P;
     // ---- read the program: entry context, then one script per coroutine that will exist
@@ -207,7 +213,11 @@ extern "C" void h_prog() {
         if (P.resolved[k]) continue;
         if (P.nw[k] <= 1) {
             P.model_resolve(k, false);
-            (void)P.gate_p[k](P.gval[k]);           // normal mode: the only waiter (if any) runs now
+            if (!g_unwinding) (void)P.gate_p[k](P.gval[k]);           // normal mode: the only waiter (if any) runs now
+            else {
+                // the same from ordinary code while an exception is propagating (a scope guard that resolves during stack unwinding): still normal mode, the waiter runs now
+                try { UnwindResolve guard{&P, k}; throw vf_tag_exc{7}; } catch (const vf_tag_exc &) { }
+            }
         } else {
             // several waiters: resumed directly one after another in normal mode, which the property says nothing about;
             // resolve from a coroutine-mode context instead so that they are queued
